@@ -3,7 +3,9 @@ import os, json, hashlib
 import vf
 
 PROP = "C07"
-THEOREMS = ["seek_path_independent", "replay_prefix", "fork_faithful", "fork_seek_faithful"]
+THEOREMS = ["seek_path_independent", "seek_path_independent_foreign_cps", "replay_prefix", "fork_faithful", "fork_seek_faithful",
+            "checkpoint_sound", "checkpoint_sound_state", "restore_base_nearest", "append_preserves", "live_run_replays",
+            "failed_seek_state_partial"]
 
 TAMPERS = ["root", "commit", "pdig", "pfield", "pcalc", "nopatch", "empty", "applyfail", "rcpttx", "rcptdig"]
 TCODE = {k: i + 1 for i, k in enumerate(TAMPERS)}
